@@ -398,7 +398,13 @@ def check(pid, tier, seed):
             for i, rec, v in cl["oracle"]:
                 violations.append(("oracle", {"stage": stage, "record": rec, "verdict": v, "property": pid}, True))
             for i, rec, v in cl["disagree"]:
-                violations.append(("disagree", {"stage": stage, "record": rec, "verdict": v}, False))
+                # where the property's theorems pin the output exactly (the model IS the
+                # specification: c13_eq, c14_*, c16_*), a disagreement is itself a concrete input
+                # on which the implementation departs from the proved behaviour
+                exact = stage in spec.get("exact_stages", [])
+                violations.append(("disagree", {"stage": stage, "record": rec, "verdict": v,
+                                                "note": "implementation output differs from the output the theorems determine" if exact else
+                                                "model/implementation disagreement"}, exact))
             for i, rec, v in cl["bad"]:
                 violations.append(("pipeline", {"stage": stage, "record": rec[:2000], "verdict": v}, False))
             oracle_evals += len(cl["ok"]) + len(cl["oracle"]) + len(cl["known"])
